@@ -19,7 +19,7 @@ use std::sync::{Arc, Barrier};
 
 pub const ID: &str = "C13";
 
-pub const RULE: &str = "cases = (grammar, pool of 3 inputs, history). Grammars: C01/C02/C08/C11 classes (recovery, validate emitters, memoized, recursive, internal Box/Rc/Arc/Either/boxed wrappers) built by the dynamic builder, plus a hand-written catalogue of statically typed parsers (text::*, regex, pratt, memoized, recovery, labelled). Pool: 3 of 6 generated inputs, chosen to mix accepted, rejected and recovered ones. A history is a list of steps (handle, input, parse|check); handles are derived ONCE from one parser value and kept for the whole history: the original, p.clone(), &p, Box::new, Rc::new, Arc::new, .boxed(), .boxed().boxed(), Either::Left, Either::Right, and Cache::get() at a fresh lifetime per step where the input text is written into ONE reused buffer (same address for every step). Per (grammar, pool): all 3^3 (quick) / 3^4 (thorough) input orders with handle and mode cycling, plus random histories of 6 steps. Oracle: the result of every step (has_output, output, every error with span / found / expected / message, and the Inspector state) equals the result a FRESH parser built from the same grammar gives on that input. Threads: every Send + Sync catalogue parser behind one Arc<dyn Parser + Send + Sync>, and a Cache shared by reference, used by 2, 4 and 8 threads that each run a generated list of (input, parse|check) 50 (quick) / 400 (thorough) times behind a start barrier; every result must equal the sequential one (real threads: the schedule is the OS's, sampled not enumerated). NON-TRIVIAL = a failing or recovering parse precedes a succeeding one on the same handle, or two different handles are interleaved on the same input; distinct by (grammar, pool, history).";
+pub const RULE: &str = "cases = (grammar, pool of 3 inputs, history). Grammars: C01/C02/C08/C11 classes (recovery, validate emitters, memoized, recursive, internal Box/Rc/Arc/Either/boxed wrappers) built by the dynamic builder, plus a hand-written catalogue of statically typed parsers (text::*, regex, pratt, memoized, recovery, labelled). Pool: 3 of 6 generated inputs, chosen to mix accepted, rejected and recovered ones. A history is a list of steps (handle, input, parse|check); handles are derived ONCE from one parser value and kept for the whole history: the original, p.clone(), &p, Box::new, Rc::new, Arc::new, .boxed(), .boxed().boxed(), Either::Left, Either::Right, a DEEP clone (the grammar rebuilt with every node's concrete combinator replaced by its own .clone(), so every combinator's hand-written Clone impl is on the path), and Cache::get() at a fresh lifetime per step where the input text is written into ONE reused buffer (same address for every step). Per (grammar, pool): all 3^3 (quick) / 3^4 (thorough) input orders with handle and mode cycling, plus random histories of 6 steps. Oracle: the result of every step (has_output, output, every error with span / found / expected / message, and the Inspector state) equals the result a FRESH parser built from the same grammar gives on that input. Threads: every Send + Sync catalogue parser behind one Arc<dyn Parser + Send + Sync>, and a Cache shared by reference, used by 2, 4 and 8 threads that each run a generated list of (input, parse|check) 50 (quick) / 400 (thorough) times behind a start barrier; every result must equal the sequential one (real threads: the schedule is the OS's, sampled not enumerated). NON-TRIVIAL = a failing or recovering parse precedes a succeeding one on the same handle, or two different handles are interleaved on the same input; distinct by (grammar, pool, history).";
 
 pub const ASSUMPTIONS: &[&str] = &[
     "a parser freshly built from the same grammar is the model (C01..C12 tie it to the reference semantics)",
@@ -58,7 +58,8 @@ where
     }
 }
 
-pub const HANDLES: [&str; 12] = ["original", "clone", "reference", "Box", "Rc", "Arc", "boxed", "boxed.boxed", "Either::Left", "Either::Right", "Cache::get", "Cache::get(2)"];
+pub const NH: usize = 13;
+pub const HANDLES: [&str; NH] = ["original", "clone", "reference", "Box", "Rc", "Arc", "boxed", "boxed.boxed", "Either::Left", "Either::Right", "Cache::get", "Cache::get(2)", "deep clone (every combinator's own Clone impl)"];
 
 #[derive(Clone, Debug, PartialEq, serde::Serialize, serde::Deserialize)]
 pub struct Step {
@@ -100,13 +101,17 @@ pub fn run_history(g: &G, pool: &[String], steps: &[Step], l: &mut Local) -> Res
     let b2 = orig.clone().boxed().boxed();
     let el: either::Either<P, P> = either::Either::Left(orig.clone());
     let er: either::Either<P, P> = either::Either::Right(cl.clone());
+    // the same grammar with every node's concrete combinator replaced by its own .clone()
+    DEEP_CLONE.with(|d| d.set(true));
+    let deep: P = build::<&str, RS>(g, false);
+    DEEP_CLONE.with(|d| d.set(false));
     let cache: Cache<GC> = Cache::new(GC(g.clone()));
     let cache2: Cache<GC> = Cache::new(GC(g.clone()));
     let mut buf = String::with_capacity(64);
     for (k, s) in steps.iter().enumerate() {
         let i = s.i as usize % pool.len();
         let inp: &str = pool[i].as_str();
-        let got = match s.h % 12 {
+        let got = match s.h as usize % NH {
             0 => runp(&orig, inp, s.check),
             1 => runp(&cl, inp, s.check),
             2 => runp(&&orig, inp, s.check),
@@ -117,6 +122,7 @@ pub fn run_history(g: &G, pool: &[String], steps: &[Step], l: &mut Local) -> Res
             7 => runp(&b2, inp, s.check),
             8 => runp(&el, inp, s.check),
             9 => runp(&er, inp, s.check),
+            12 => runp(&deep, inp, s.check),
             h => {
                 // Cache::get at a fresh lifetime; the text lives in one reused buffer
                 buf.clear();
@@ -128,7 +134,7 @@ pub fn run_history(g: &G, pool: &[String], steps: &[Step], l: &mut Local) -> Res
         l.evals += 1;
         let want = &model[i][s.check as usize];
         if let Some(m) = &got.panic {
-            return Err((k, "C13/panic".into(), format!("step {} ({} on {:?}, {}) panicked: {}", k, HANDLES[s.h as usize % 12], pool[i], if s.check { "check" } else { "parse" }, m)));
+            return Err((k, "C13/panic".into(), format!("step {} ({} on {:?}, {}) panicked: {}", k, HANDLES[s.h as usize % NH], pool[i], if s.check { "check" } else { "parse" }, m)));
         }
         if !same(&got, want) {
             let what = if got.has_output != want.has_output {
@@ -147,7 +153,7 @@ pub fn run_history(g: &G, pool: &[String], steps: &[Step], l: &mut Local) -> Res
                     "step {} of the history ({} through handle '{}' on {:?}) gives output {:?} errors {:?} but a fresh parser gives output {:?} errors {:?}",
                     k,
                     if s.check { "check" } else { "parse" },
-                    HANDLES[s.h as usize % 12],
+                    HANDLES[s.h as usize % NH],
                     pool[i],
                     got.out,
                     got.errs,
@@ -170,11 +176,11 @@ fn classify(g: &G, pool: &[String], steps: &[Step], l: &mut Local) -> bool {
     for (a, sa) in steps.iter().enumerate() {
         for sb in &steps[a + 1..] {
             let (ia, ib) = (sa.i as usize % pool.len(), sb.i as usize % pool.len());
-            if sa.h % 12 == sb.h % 12 && !clean(ia) && clean(ib) {
+            if sa.h as usize % NH == sb.h as usize % NH && !clean(ia) && clean(ib) {
                 nt = true;
                 l.bump("failure_then_success_on_one_handle");
             }
-            if sa.h % 12 != sb.h % 12 && ia == ib {
+            if sa.h as usize % NH != sb.h as usize % NH && ia == ib {
                 nt = true;
             }
         }
@@ -283,7 +289,7 @@ pub fn gen_case(tape: &[u32]) -> (G, Vec<String>, Vec<Step>) {
     while pool.len() < 3 {
         pool.push(format!("{}z", pool.last().cloned().unwrap_or_default()));
     }
-    let steps: Vec<Step> = (0..6).map(|_| Step { h: t.pick(12) as u8, i: t.pick(3) as u8, check: t.chance(1, 3) }).collect();
+    let steps: Vec<Step> = (0..6).map(|_| Step { h: t.pick(NH) as u8, i: t.pick(3) as u8, check: t.chance(1, 3) }).collect();
     (g, pool, steps)
 }
 
@@ -585,7 +591,7 @@ pub fn run(tier: Tier, seed: u64) -> i32 {
             let mut st = vec![];
             let mut x = o;
             for k in 0..olen {
-                st.push(Step { h: ((o * 5 + k * 7) % 12) as u8, i: (x % 3) as u8, check: (o + k) % 4 == 3 });
+                st.push(Step { h: ((o * 5 + k * 7) % NH) as u8, i: (x % 3) as u8, check: (o + k) % 4 == 3 });
                 x /= 3;
             }
             one("orders", &g, &pool, &st, l)?;
@@ -594,7 +600,7 @@ pub fn run(tier: Tier, seed: u64) -> i32 {
         one("random-history", &g, &pool, &steps, l)?;
         let nt = classify(&g, &pool, &steps, l);
         let toks: Vec<char> = pool.join("\u{1}").chars().collect();
-        l.note(&g, &toks, "random-history", nt, || format!("pool {:?}, history {:?}", pool, steps.iter().map(|s| format!("{}:{}{}", HANDLES[s.h as usize % 12], s.i, if s.check { "c" } else { "p" })).collect::<Vec<_>>()));
+        l.note(&g, &toks, "random-history", nt, || format!("pool {:?}, history {:?}", pool, steps.iter().map(|s| format!("{}:{}{}", HANDLES[s.h as usize % NH], s.i, if s.check { "c" } else { "p" })).collect::<Vec<_>>()));
         Ok(())
     });
     // catalogue: single-threaded histories
